@@ -88,12 +88,29 @@ func withNot(f Fact) Fact {
 			t, fl := g(u.X)
 			return fl, t
 		}
+		// a predicate helper of this module with one boolean result and one return (`if !isTableFile(entry)`): the
+		// call's value is the helper's return expression; facts about shapes inside it (tests the helper makes on its
+		// own operands) hold on the corresponding edge of the call. Facts that need the caller's values simply do not
+		// match there.
+		if call, ok := cond.(*ssa.Call); ok {
+			if t, fl := f(cond); t || fl {
+				return t, fl
+			}
+			if h := call.Call.StaticCallee(); h != nil && len(h.Blocks) > 0 && h.Pkg != nil && strings.HasPrefix(h.Pkg.Pkg.Path(), modPath) &&
+				h.Signature.Results().Len() == 1 && h.Signature.Results().At(0).Type().String() == "bool" {
+				if rets := Returns(h); len(rets) == 1 {
+					return g(ReturnValue(rets[0], 0))
+				}
+			}
+			return false, false
+		}
 		if phi, ok := cond.(*ssa.Phi); ok && len(phi.Edges) >= 2 && !isLoopHeader(phi.Block()) {
 			if t, fl := f(cond); t || fl {
 				return t, fl
 			}
 			nFalse, nTrue := 0, 0
 			var operands []ssa.Value
+			negated := map[int]bool{} // operand index -> the operand is the NEGATION of the recorded branch condition
 			for i, e := range phi.Edges {
 				if b, isK := constBool(e); isK {
 					if b {
@@ -101,10 +118,16 @@ func withNot(f Fact) Fact {
 					} else {
 						nFalse++
 					}
-					// the operand that short-circuited: the condition of the predecessor's branch
+					// the operand that short-circuited: the condition of the predecessor's branch. The builder compiles
+					// `!a && b` as a branch on a with swapped targets (no NOT instruction): the operand has the value b
+					// on the edge taken, so it is the condition itself if (taken on true) == b, its negation otherwise
 					p := phi.Block().Preds[i]
 					if len(p.Instrs) > 0 {
 						if iff, ok := p.Instrs[len(p.Instrs)-1].(*ssa.If); ok {
+							takenOnTrue := len(p.Succs) == 2 && p.Succs[0] == phi.Block()
+							if takenOnTrue != b {
+								negated[len(operands)] = true
+							}
 							operands = append(operands, iff.Cond)
 						}
 					}
@@ -112,14 +135,21 @@ func withNot(f Fact) Fact {
 				}
 				operands = append(operands, e)
 			}
+			eval := func(k int, o ssa.Value) (bool, bool) {
+				t, fl := g(o)
+				if negated[k] {
+					return fl, t
+				}
+				return t, fl
+			}
 			switch {
 			case nFalse > 0 && nTrue == 0: // conjunction: true ⇒ every operand true; false ⇒ some operand false
 				allFalse := len(operands) > 0
-				for _, o := range operands {
+				for k, o := range operands {
 					if o == cond {
 						continue
 					}
-					t, fl := g(o)
+					t, fl := eval(k, o)
 					if t {
 						return true, false
 					}
@@ -132,11 +162,11 @@ func withNot(f Fact) Fact {
 				}
 			case nTrue > 0 && nFalse == 0: // disjunction: false ⇒ every operand false; true ⇒ some operand true
 				allTrue := len(operands) > 0
-				for _, o := range operands {
+				for k, o := range operands {
 					if o == cond {
 						continue
 					}
-					t, fl := g(o)
+					t, fl := eval(k, o)
 					if fl {
 						return false, true
 					}
